@@ -185,6 +185,7 @@ UF_ATTRS = ("#[cfg_attr(kani, kani::stub(crate::op::Op::eval_value_unary, crate:
 
 SHAPE = "shape: exactly %d element(s), repeat counts 0..=%d, 1 <= total width <= 64 (element values, widths and signedness symbolic)"
 KINDS = {"concat_layout_n%d" % n: ("bounded", SHAPE % (n, 2 if n <= 2 else 1)) for n in range(1, 4)}
+KINDS["ct_rt_ternary_agree_cond65"] = ("bounded", "condition is a 65-bit Value::BigUint (payload and mask_xz symbolic, real num-bigint); branches <= 64 bits, both of the context width")
 FN_OF = [("leaf", "Expression::eval [Value arm]"), ("unary", "Expression::eval [Unary arm]"), ("binary", "Expression::eval [Binary arm]"),
          ("ternary", "Expression::eval [Ternary arm]"), ("concat", "Expression::eval [Concatenation arm]"),
          ("ct_", "Expression::eval [Ternary arm] vs analyzer Expression::eval_value [Ternary arm]"), ("canary_ct", "analyzer Expression::eval_value [Ternary arm]")]
@@ -198,11 +199,13 @@ def build(ctx, res):
     ctext = ct_module(ctx, items)
     raw = ctx.unit_file("interp", "harness.rs")
     h = raw.replace("#[vp_proof_uf_u2]", VL.expand_harness_attrs("#[vp_proof]\n" + UF_ATTRS, unwind=2))
+    # no E9 stubs: the harness runs the real num-bigint code (operator functions sliced away by the EU stubs; they are not called)
+    h = h.replace("#[vp_proof_big]", "#[cfg_attr(kani, kani::proof)]\n#[cfg_attr(kani, kani::unwind(8))]\n" + UF_ATTRS)
     h = h.replace("#[vp_proof_uf]", "#[vp_proof]\n" + UF_ATTRS)
     h = VL.expand_harness_attrs(h, unwind=8)
     lib = VL.PRELUDE + vtext + otext + itext + ctext + VL.BIG_STUBS + opeval_spec(ctx) + any_op_text(op_variants(oitems[0])) + h
     hs = []
-    for n in re.findall(r"#\[vp_proof(?:_uf|_uf_u2)?\]\s*pub fn (\w+)", raw):
+    for n in re.findall(r"#\[vp_proof(?:_uf|_uf_u2|_big)?\]\s*pub fn (\w+)", raw):
         kind, bound = ("canary", None) if n.startswith("canary_") else KINDS.get(n, ("proof", None))
         fn = [f for p, f in FN_OF if n.startswith(p) or (n.startswith("canary_") and n[7:].startswith(p))]
         hs.append(Harness("harness::" + n, kind=kind, fn=fn[-1] if fn else "Expression::eval", bound=bound))
@@ -211,7 +214,7 @@ def build(ctx, res):
                  "all operand and node widths <= 64 (big-integer code unreachable: stubs panic)",
         "Value": "eval(Value{value}) == value (all four fields)",
         "Unary/Binary": "eval(node) == op.eval_value_unary/binary(eval(x)[, eval(y)], node.expr_context.width, node.expr_context.signed): for EVERY operator with the operator functions "
-                        "uninterpreted (rule EU; also through a nested Binary-over-Unary tree); and with the REAL operator functions a Binary Sub / ArithShiftR node and a Unary minus node "
+                        "uninterpreted (rule EU; also through a nested Binary-over-Unary tree); and with the REAL operator functions a Binary Sub node and a Unary minus node "
                         "yield the IEEE 1800 result (opeval's reference) at the node's own width and signedness, under opeval's call-site preconditions",
         "Ternary": "c = eval(cond); selected = (some bit of c is a known 1) ? eval(true_expr) : eval(false_expr)  [IEEE 1800 11.4.11 for a known condition; an x/z-only condition takes "
                    "the false branch in both Veryl evaluators - IEEE merges the branches bit by bit; reported, not encoded]; selected.width >= node.width ==> result == selected; "
@@ -219,10 +222,17 @@ def build(ctx, res):
                    "result.signed == (node.signed && selected.signed)",
         "Concatenation": "elements (e_i, repeat_i), e_i sized: result.width == sum(repeat_i * width_i); bit k of the result is the bit of the slot that covers k in the layout "
                          "{e_1 x repeat_1, ..., e_n x repeat_n} with e_1 most significant; result.signed == node.signed; wf(result)",
-        "compile time vs run time (Ternary)": "with context width >= both branch widths, node.width == context width and node.signed == (both branch values signed), and a condition "
-                                              "that is free of x/z or has no known 1: interpreter result == analyzer `eval_value` Ternary arm result (all fields). "
-                                              "canary_ct_rt_cond_known1_with_xz documents that the restriction on the condition is necessary (2'b1x: run time true branch, compile time false branch)",
+        "compile time vs run time (Ternary)": "with context width >= both branch widths, node.width == context width and node.signed == (both branch values signed): for EVERY well-formed "
+                                              "<=64-bit condition value (known, known 1 together with x/z, x/z only) interpreter result == analyzer `eval_value` Ternary arm result "
+                                              "(all fields); for a 65-bit Value::BigUint condition (bounded stand-in ct_rt_ternary_agree_cond65) both select the true branch iff "
+                                              "some bit is a known 1",
     })
+    res.trusted += [
+        "interp: harness stand-in (compile-time side only): a child of the analyzer's Ternary node is `ct::Expression { v: Option<Value> }` whose eval_value returns the stored, "
+        "already-evaluated value; `ct::Context` is empty (the arm only passes it on). The run-time side uses the real enum and no stand-in",
+        "interp: leaves of the run-time trees are the real variant `Expression::Value` (an arbitrary already-evaluated value); Variable / DynamicVariable reads are out of scope (rule EC)",
+        "interp: CBMC option --max-field-sensitivity-array-size 1024 (constant propagation knob, passed as Kani package metadata in the generated Cargo.toml)",
+    ]
     res.samples.append({"obligation": "kani:interp:ternary_select_extend", "contract": res.clauses["Ternary"]})
     res.notes.append("interp: rule EC replaces the Variable / DynamicVariable arms of Expression::eval by panic!; the set of arms is checked against the unit's list "
                      "(a new arm makes the run undecided); rule EU = Ackermann-encoded uninterpreted operator functions (kani::stub on Op::eval_value_*), natively the real functions run")
